@@ -111,13 +111,16 @@ def shard(prop, seed, n, tier="quick", collect=False, profile=None):
     acc = Acc()
     open_f = findings.open_for(prop)
     state = {"best": None, "first_fail_t": None, "n": 0}
+    _run_case = getattr(mod, "run_case", program.run_case)
+    _ghist = getattr(mod, "generic_hist", generic_hist)
+    _csum = getattr(mod, "case_summary", case_summary)
     shrink_cap = float(os.environ.get("VERIF_SHRINK_CAP") or (45.0 if tier == "quick" else 180.0))
 
     @hypothesis.seed(seed)
     @settings(max_examples=n, database=None, deadline=None, report_multiple_bugs=False,
               suppress_health_check=list(HealthCheck),
               phases=[Phase.generate, Phase.shrink])
-    @given(strategies.cases(P))
+    @given(mod.case_strategy(P) if hasattr(mod, "case_strategy") else strategies.cases(P))
     def test(case):
         if state["first_fail_t"] is not None and (time.monotonic() - state["first_fail_t"] > shrink_cap
                                                   or _rt.active_count() > THREAD_CAP):
@@ -128,12 +131,12 @@ def shard(prop, seed, n, tier="quick", collect=False, profile=None):
         if hasattr(mod, "adjust"):
             case = mod.adjust(case)
         case["_exclusions"] = findings_sim.active_exclusions()
-        H = program.run_case(case, hooks=getattr(mod, "hooks", None))
+        H = _run_case(case, hooks=getattr(mod, "hooks", None))
         state["n"] += 1
         if H.verdict == "harness":
             raise HarnessError(f"SIM harness verdict: {H.verdict_detail}")
         if state["first_fail_t"] is None:
-            generic_hist(acc, case, H)
+            _ghist(acc, case, H)
         if H.verdict in ("inconclusive", "excluded"):
             if state["first_fail_t"] is None:
                 acc.inconclusive += 1
@@ -141,7 +144,7 @@ def shard(prop, seed, n, tier="quick", collect=False, profile=None):
             return
         viols = mod.oracle(H)
         if state["first_fail_t"] is None:
-            acc.case(case_summary(case), mod.nontrivial(H))
+            acc.case(_csum(case), mod.nontrivial(H))
             if hasattr(mod, "classify"):
                 mod.classify(acc, H)
         unknown = []
@@ -191,7 +194,7 @@ def replay_case(mod, case, verbose=False):
     findings_sim.FORCED = case.get("_exclusions", [] if case.get("_adjusted") else None)
     if hasattr(mod, "adjust") and not case.get("_adjusted") and "_exclusions" not in case:
         case = mod.adjust(case)
-    H = program.run_case(case, verbose=verbose, hooks=getattr(mod, "hooks", None))
+    H = getattr(mod, "run_case", program.run_case)(case, verbose=verbose, hooks=getattr(mod, "hooks", None))
     if H.verdict in ("inconclusive", "excluded", "harness"):
         if verbose:
             print("replay verdict:", H.verdict, H.verdict_detail)
